@@ -13,6 +13,7 @@ except Exception as e:  # the checks report this themselves
     print("generation problem:", e)
 props = [c["property_id"] for c in json.loads((vlib.ROOT / "MANIFEST.json").read_text())["checks"]]
 for p in props:
-    ok, out = vlib.lake_build((f"SSVerif.Props.{p}",) + tuple(f"ssdriver-{x}" for x in vlib.drivers_of(p)))
+    ok, out = vlib.lake_build((f"SSVerif.Props.{p}",) + tuple(f"SSVerif.Props.{x}" for x in vlib.EXTRA_PROPS.get(p, []))
+                              + tuple(f"ssdriver-{x}" for x in vlib.drivers_of(p)))
     print(p, "ok" if ok else "FAILED\n" + out[-1500:])
 print("repo build:", vlib.build_repo("asan"))
